@@ -309,4 +309,11 @@ def rule_atomic_emissions(ctx):
 
 from .rules_wrappers import rules_for as _rules_for
 _fw_C03 = _rules_for("C03")
-RULES = [rule_atomic_emissions, rule_tables, rule_increment, rule_readiness, _fw_C03]
+def rule_analysis_latched(ctx):
+    """`finished` and the writer mode live in the body writer that the request analysis installs: the analysis is latched on every
+    successful path (R02.7, shared with C02), otherwise a later write starts from a fresh, un-finished writer"""
+    from .rules_c02 import rule_host_and_framing
+    rule_host_and_framing(ctx)
+
+
+RULES = [rule_atomic_emissions, rule_tables, rule_increment, rule_readiness, _fw_C03, rule_analysis_latched]
